@@ -1,17 +1,19 @@
 #!/bin/bash
-# verify_seed.sh <ID> <pkg dir> <demo test regexp> : confirms a seeded change in its scratch worktree /tmp/wt-<ID>:
-#   builds, demo FAILS with the patch, demo PASSES without it, package's other tests pass with it.
+# verify_seed.sh <ID> <pkg dir> <demo test regexp> : confirms a seeded change in its scratch worktree /tmp/wt2-<ID>
+# (falls back to /tmp/wt-<ID>): places /tmp/seed-<ID>/demo_test.go as <pkg>/zz_demo_test.go, then
+#   builds, demo FAILS with the patch, demo PASSES without it, package's other tests pass with it.  Leaves the worktree clean.
 ID=$1; PKG=$2; RE=$3
 export GOFLAGS=-mod=mod GOPROXY=off GOSUMDB=off GOTOOLCHAIN=local
-cd /tmp/wt-$ID || exit 2
-git checkout -q -- . 2>/dev/null
+WT=/tmp/wt2-$ID; [ -d $WT ] || WT=/tmp/wt-$ID
+cd $WT || exit 2
+git checkout -q -- . 2>/dev/null; git clean -fdq
+[ -f /tmp/seed-$ID/demo_test.go ] && cp /tmp/seed-$ID/demo_test.go $PKG/zz_demo_test.go
 git apply /tmp/seed-$ID/patch.diff || { echo "APPLY-FAILED"; exit 2; }
-go build -ldflags=-checklinkname=0 ./... 2>&1 | grep -v "^#\|ld: \|^$" | head -5; echo "build-with-patch rc=${PIPESTATUS[0]}"
-go test -ldflags=-checklinkname=0 -count=1 -run "$RE" $PKG > /tmp/seed-$ID/with.log 2>&1; echo "demo-with-patch rc=$? (expect non-zero)"
-go test -ldflags=-checklinkname=0 -count=1 $PKG 2>&1 | tail -3 > /tmp/seed-$ID/pkg-with.log; grep -c "^--- FAIL" /tmp/seed-$ID/with.log
-# other tests of the package with the patch, excluding the demo
-go test -ldflags=-checklinkname=0 -count=1 -skip "$RE" $PKG > /tmp/seed-$ID/others.log 2>&1; echo "other-tests-with-patch rc=$?"
+go build ./internal/... ./pkg/... 2>&1 | grep -v "^#\|ld: \|^$" | head -5; echo "build-with-patch rc=${PIPESTATUS[0]}"
+go test -ldflags=-checklinkname=0 -vet=off -count=1 -run "$RE" $PKG > /tmp/seed-$ID/with.log 2>&1; echo "demo-with-patch rc=$? (expect non-zero)"
+grep -c "^--- FAIL" /tmp/seed-$ID/with.log
+go test -ldflags=-checklinkname=0 -vet=off -count=1 -skip "$RE" $PKG > /tmp/seed-$ID/others.log 2>&1; echo "other-tests-with-patch rc=$?"
 git apply -R /tmp/seed-$ID/patch.diff
-go test -ldflags=-checklinkname=0 -count=1 -run "$RE" $PKG > /tmp/seed-$ID/without.log 2>&1; echo "demo-without-patch rc=$? (expect 0)"
-git apply /tmp/seed-$ID/patch.diff
+go test -ldflags=-checklinkname=0 -vet=off -count=1 -run "$RE" $PKG > /tmp/seed-$ID/without.log 2>&1; echo "demo-without-patch rc=$? (expect 0)"
+git checkout -q -- . 2>/dev/null; git clean -fdq
 rm -rf /tmp/executor* /tmp/TestChainLedger* 2>/dev/null
